@@ -361,7 +361,7 @@ def run(tier):
         "that calls once and releases (O3), agreement of register/cancel/get on operation/slot/poll-bit triples (O4), stale readiness "
         "is cleared with the registration bits and the error widening adds only registered bits (O5), timer deadlines are monotonic "
         "clock + stored delta from a success edge, released only on the not-later edge of lexicographic comparators evaluated on all "
-        "nine orderings (O6). Not decided: the pollfd/socket-list compaction invariants and the scan cursor under compaction (an "
+        "nine orderings (O6); timer handles stay consistent with heap positions (H1/H2, shared with C13). Not decided: the pollfd/socket-list compaction invariants and the scan cursor under compaction (an "
         "inductive relational array invariant), hence 'a poll reported it ready since registration' beyond O5.",
         trusted=["poll(2), monoclock_get", "TAILQ macros", "ptrheap order (C13)"])
     configs = [cdb.HOST]
@@ -375,6 +375,11 @@ def run(tier):
         o3(prog, rep)
         o4_o5(prog, rep)
         o6(prog, rep)
+        # handle consistency of the timer heap: a stale handle makes cancel remove the wrong timer, so a cancelled
+        # registration's callback runs (rules shared with C13)
+        from . import c13
+        c13.h1(prog, rep)
+        c13.h2_h3(prog, rep)
     n = len(configs)
     rep.require_min("O1-take", 5 * n)
     rep.require_min("O4-mapping", 4 * n)
